@@ -2,6 +2,7 @@ package main
 
 import (
 	"fmt"
+	"iter"
 	"math/bits"
 	"math/rand"
 	"reflect"
@@ -163,12 +164,14 @@ type c02List interface {
 }
 
 type c02Plain[K typez.Ordered] struct {
+	held iter.Seq2[K, int64] // an All() sequence obtained EARLIER (at the first operation, then after every All): consumed by the next All op — the sequence is a view of the list at the time it is walked, not at the time it was made
 	s    *listz.SkipList[K, int64]
 	to   func(int64) K
 	back func(K) int64
 	src  *c02Script
 }
 type c02Cmp[K any] struct {
+	held iter.Seq2[K, int64]
 	s    *listz.SkipListWithCmp[K, int64]
 	cmp  func(K, K) int
 	to   func(int64) K
@@ -188,8 +191,10 @@ func (p *c02Plain[K]) set(mode int, k K, v int64) bool {
 		var r bool
 		for try := 0; try < 400; try++ {
 			var f listz.SkipList[K, int64]
+			early := f.All() // taken from the zero value, before the first binding exists
 			r = c02SetMode(&f, mode, k, v)
 			p.s = &f
+			p.held = early
 			h := f.Head()
 			if h == nil || int(c02Height(h)) == want {
 				break
@@ -220,6 +225,9 @@ func c02SetMode[K typez.Ordered](s *listz.SkipList[K, int64], mode int, k K, v i
 
 func (p *c02Plain[K]) Do(code, a, b, c int64, out []int64) []int64 {
 	s := p.s
+	if p.held == nil {
+		p.held = s.All()
+	}
 	cb := func(l *[]int64, stop int64) func(K, int64) bool {
 		n := int64(0)
 		return func(k K, v int64) bool {
@@ -281,13 +289,18 @@ func (p *c02Plain[K]) Do(code, a, b, c int64, out []int64) []int64 {
 	case 13:
 		var l []int64
 		n := int64(0)
-		for k, v := range s.All() {
+		seq := s.All()
+		if p.held != nil && (a+b+c)%2 == 0 {
+			seq = p.held
+		}
+		for k, v := range seq {
 			l = append(l, p.back(k), v)
 			n++
 			if a > 0 && n >= a {
 				break
 			}
 		}
+		p.held = s.All()
 		out = append(out, PutList(l)...)
 	case 14:
 		var l []int64
@@ -318,6 +331,9 @@ func (p *c02Plain[K]) Do(code, a, b, c int64, out []int64) []int64 {
 
 func (p *c02Cmp[K]) Do(code, a, b, c int64, out []int64) []int64 {
 	s := p.s
+	if p.held == nil {
+		p.held = s.All()
+	}
 	cb := func(l *[]int64, stop int64) func(K, int64) bool {
 		n := int64(0)
 		return func(k K, v int64) bool {
@@ -379,13 +395,18 @@ func (p *c02Cmp[K]) Do(code, a, b, c int64, out []int64) []int64 {
 	case 13:
 		var l []int64
 		n := int64(0)
-		for k, v := range s.All() {
+		seq := s.All()
+		if p.held != nil && (a+b+c)%2 == 0 {
+			seq = p.held
+		}
+		for k, v := range seq {
 			l = append(l, p.back(k), v)
 			n++
 			if a > 0 && n >= a {
 				break
 			}
 		}
+		p.held = s.All()
 		out = append(out, PutList(l)...)
 	case 14:
 		var l []int64
@@ -671,8 +692,15 @@ func (b *c02B) observe() {
 func c02Gen(c *Ctx) {
 	// is the private generator reachable?
 	{
+		// the probe must not depend on values the code under test chooses (a changed initial level must show up as a
+		// difference in Shape, not switch the observation off): with the scripted source the first insert gets a tower
+		// of height 2 (a new tower is at most one level above the current one), after which the level field and the tower of the first node must both read 2
 		s := listz.NewSkipList[int64, int64]()
-		if !c02Inject(s, &c02Script{}) || c02Level(s) != 1 || !c02IsZero(new(listz.SkipList[int64, int64])) {
+		okInject := c02Inject(s, &c02Script{ws: []uint64{1 << 30}})
+		if okInject {
+			s.Set(1, 1)
+		}
+		if !okInject || c02Level(s) != 2 || s.Head() == nil || c02Height(s.Head()) != 2 || !c02IsZero(new(listz.SkipList[int64, int64])) {
 			c02HookOK = false
 			c.Note("private fields rand/level/head.next not reachable by reflection: tower heights are NOT scripted and NOT compared in this run (Shape replaced by Len)")
 		} else {
